@@ -195,7 +195,10 @@ def run_impl(cases, jobs=8, reuse=False):
     chunks = [c for c in chunks if c]
     payloads = []
     for ch in chunks:
-        pl = {"cases": [dict({"id": c["id"], "crystal": c["crystal"]}, **({"tol": c["tol"]} if "tol" in c else {})) for c in ch]}
+        # every third case: a pseudo-random selection of the analyzer's other public getters is called first (order of public calls)
+        pl = {"cases": [dict({"id": c["id"], "crystal": c["crystal"], "getters": c.get("getters"),
+                              "getter_seed": c["id"] if (c["id"] % 3 == 1 and c.get("getters") is None) else None},
+                             **({"tol": c["tol"]} if "tol" in c else {})) for c in ch]}
         if reuse:
             pl["reuse"] = [{"id": c["id"], "crystal": c["crystal"]} for c in ch[:12]]
         payloads.append(pl)
